@@ -47,5 +47,5 @@ def run_queries(specs, nproc=16, log=None, hard_timeout=None):
 
 def label(spec):
     sysname = 'single_thread_prefetch' if spec['system'] == 'stp' else f'lazy_parallel_map[{spec["backend"]}]'
-    ex = ''.join(f' {k}={spec[k]}' for k in ('n_exact', 'B_exact', 'W_exact') if spec.get(k) is not None)
+    ex = ''.join(f' {k}={spec[k]}' for k in ('n_exact', 'B_exact', 'W_exact', 'region') if spec.get(k) is not None)
     return f'{sysname}:{spec["mode"]} n<={spec["N"]} B<={spec["B"]} w<={spec.get("Wk", 1)} K={spec["K"]}{ex}'
